@@ -80,6 +80,16 @@ func runFixturesImpl(root string) error {
 	if err := expect("PAN", v, []string{"BadEq", "BadAssert"}, []string{"GoodEqConst", "GoodEqGuarded", "GoodAssert"}); err != nil {
 		return err
 	}
+	// BND
+	fc.Obs = nil
+	boundsRule(fc, "FX-BND", []string{"pkg/fixture/bnd"}, 5)
+	v = verdicts()
+	if err := expect("BND", v, []string{"BadTestBeforeClamp", "BadIndexOtherLength", "BadIndexNoLowerBound"}, []string{"GoodClamp", "GoodIndex"}); err != nil {
+		return err
+	}
+	if v["GoodClamp"] != "discharged" || v["GoodIndex"] != "discharged" {
+		return fmt.Errorf("BND engine did not see the good fixtures (GoodClamp=%q GoodIndex=%q)", v["GoodClamp"], v["GoodIndex"])
+	}
 	// TNT
 	san := map[string]bool{modPath + "/pkg/fixture/tnt.Sanitize": true}
 	t := newTnt(fc, san)
